@@ -352,6 +352,43 @@ func c08Bodies(c *Ctx, cfns []*ssa.Function) {
 			}
 		}
 	}
+	// callee closes the response it receives on every path on which it returns a non-nil error (a status check that
+	// rejects the answer and releases it: `if err := checkResponse(resp); err != nil { return err }`)
+	closesOnError := map[*ssa.Function]map[int]bool{}
+	for _, fn := range cfns {
+		res := fn.Signature.Results()
+		if res.Len() != 1 || ir.TypeStr(res.At(0).Type()) != "error" {
+			continue
+		}
+		for i, p := range fn.Params {
+			if ts := ir.TypeStr(p.Type()); ts != "*net/http.Response" && ts != "io.ReadCloser" {
+				continue
+			}
+			okAll, any := true, false
+			ir.EachInstr(fn, func(b *ssa.BasicBlock, _ int, in ssa.Instruction) {
+				ret, ok := in.(*ssa.Return)
+				if !ok || b == fn.Recover || ir.IsNilConst(ir.Results(ret)[0]) {
+					return
+				}
+				any = true
+				closed := false
+				ir.EachInstr(fn, func(_ *ssa.BasicBlock, _ int, x ssa.Instruction) {
+					if isBodyClose(x, p) && (flow.Dominates(x, ret) || func() bool { _, d := x.(*ssa.Defer); return d }()) {
+						closed = true
+					}
+				})
+				if !closed {
+					okAll = false
+				}
+			})
+			if any && okAll {
+				if closesOnError[fn] == nil {
+					closesOnError[fn] = map[int]bool{}
+				}
+				closesOnError[fn][i] = true
+			}
+		}
+	}
 	// forwarders: a function that returns the response of such a call as it is (a thin `dispatch` wrapper around
 	// the handler) hands the ownership to its caller: its callers are the ones that obtain the response
 	forwarders := map[*ssa.Function]bool{}
@@ -455,8 +492,49 @@ func c08Bodies(c *Ctx, cfns []*ssa.Function) {
 					}
 				}
 			}
+			// the failure edge of a check that closes what it rejects
+			releasedAt := map[ssa.Instruction]bool{}
+			ir.EachInstr(fn, func(_ *ssa.BasicBlock, _ int, x ssa.Instruction) {
+				hc, ok := x.(*ssa.Call)
+				if !ok || hc.Referrers() == nil {
+					return
+				}
+				callee := ir.StaticCallee(hc)
+				if callee == nil {
+					return
+				}
+				al := aliases(resp)
+				for i, a := range hc.Call.Args {
+					isResp := al[a]
+					if f, base, ok := ir.LoadedField(a); ok && f.Name == "Body" && al[base] {
+						isResp = true
+					}
+					if !isResp || !closesOnError[callee][i] {
+						continue
+					}
+					for _, r := range *hc.Referrers() {
+						bin, ok := r.(*ssa.BinOp)
+						if !ok || bin.Referrers() == nil {
+							continue
+						}
+						if _, op, ok := nilCompare(bin); ok {
+							for _, rr := range *bin.Referrers() {
+								if ifi, ok := rr.(*ssa.If); ok {
+									fail := ifi.Block().Succs[0]
+									if op == token.EQL {
+										fail = ifi.Block().Succs[1]
+									}
+									if len(fail.Instrs) > 0 {
+										releasedAt[fail.Instrs[0]] = true
+									}
+								}
+							}
+						}
+					}
+				}
+			})
 			released := func(x ssa.Instruction) bool {
-				if isBodyClose(x, resp) {
+				if isBodyClose(x, resp) || releasedAt[x] {
 					return true
 				}
 				switch y := x.(type) {
